@@ -5,6 +5,8 @@ import (
 	"go/ast"
 	"go/token"
 	"go/types"
+	"sort"
+	"strings"
 
 	"golang.org/x/tools/go/ssa"
 
@@ -17,6 +19,7 @@ func c21(p *an.Prog, r *an.R, tier string) {
 	r.Explanation = "C21 (structural clause): limits and cancellation are skip-guards only. In packages index and search every read of SearchOptions.ShardMaxMatchCount / ShardRepoMaxMatchCount / TotalMaxMatchCount is used solely in comparisons that feed branch conditions: it never flows into a slice expression, a stored value, a call argument or a return value (so it cannot truncate a file's matches); in indexData.Search a cancellation test, once it observed cancellation, cannot lead to the current document being added to the result (it can only stop before a document is evaluated). Does NOT decide 'identical matches and branches' (value-level) nor promptness of cancellation."
 	r.Rule("C21.R1", "limit reads: the value of a match-count limit flows only into integer comparisons whose result flows only into branch conditions")
 	r.Rule("C21.R2", "cancellation: from the edge on which a ctx.Err()/ctx.Done() observation is positive, the append to SearchResult.Files is unreachable without first starting the next document")
+	c21Deadline(p, r)
 	limits := map[string]bool{"ShardMaxMatchCount": true, "ShardRepoMaxMatchCount": true, "TotalMaxMatchCount": true}
 	optsT := p.Named("", "SearchOptions")
 	if !r.Anchor(optsT != nil, "zoekt.SearchOptions") {
@@ -402,4 +405,115 @@ func c21Cancel(p *an.Prog, r *an.R) {
 	}
 	r.Floor("C21.R2.cancel-observations", 1, n)
 	r.Fn(an.FuncName(f))
+}
+
+// c21Deadline: MaxWallTime becomes a deadline in one place only. A second deadline over a part of the work (the
+// pre-evaluation of type:repo sub-queries, one shard, the listing phase) lets that part give up early while the rest
+// goes on with a fresh budget; shards answer an expired context with an empty result and no error, so the part's
+// answer is silently smaller - and where it is used negatively (-type:repo ...) the search returns files it would
+// not return without the deadline.
+func c21Deadline(p *an.Prog, r *an.R) {
+	r.Rule("C21.R3", "in packages search and index exactly one call derives a context deadline or timer from SearchOptions.MaxWallTime (context.WithTimeout/WithDeadline, time.After/NewTimer/AfterFunc): all phases of one search share that deadline")
+	sinks := map[string]bool{"context.WithTimeout": true, "context.WithDeadline": true, "time.After": true, "time.NewTimer": true, "time.AfterFunc": true, "time.Tick": true, "time.NewTicker": true}
+	type site struct {
+		fn  string
+		pos token.Pos
+	}
+	var sites []site
+	for _, f := range p.SSAFuncs() {
+		if f.Pkg == nil {
+			continue
+		}
+		path := f.Pkg.Pkg.Path()
+		if path != an.Mod+"/search" && path != an.Mod+"/index" {
+			continue
+		}
+		if pos := f.Pos(); pos.IsValid() && strings.HasSuffix(p.Fset.Position(pos).Filename, "_test.go") {
+			continue
+		}
+		seen := map[ssa.Value]bool{}
+		var follow func(v ssa.Value, depth int)
+		follow = func(v ssa.Value, depth int) {
+			if v == nil || seen[v] || depth > 8 || v.Referrers() == nil {
+				return
+			}
+			seen[v] = true
+			for _, ref := range *v.Referrers() {
+				switch x := ref.(type) {
+				case *ssa.Call:
+					if callee := x.Call.StaticCallee(); callee != nil && callee.Pkg != nil {
+						name := callee.Pkg.Pkg.Path() + "." + callee.Name()
+						if sinks[name] {
+							sites = append(sites, site{an.SSAName(f), x.Pos()})
+							continue
+						}
+						// time.Now().Add(d), d.Round(..), min(d, ..): the value goes on
+						if callee.Pkg.Pkg.Path() == "time" {
+							follow(x, depth+1)
+						}
+					} else if _, isBuiltin := x.Call.Value.(*ssa.Builtin); isBuiltin {
+						follow(x, depth+1)
+					}
+				case *ssa.BinOp:
+					if x.Op != token.EQL && x.Op != token.NEQ && x.Op != token.LSS && x.Op != token.GTR && x.Op != token.LEQ && x.Op != token.GEQ {
+						follow(x, depth+1)
+					}
+				case *ssa.Phi:
+					follow(x, depth+1)
+				case *ssa.Convert:
+					follow(x, depth+1)
+				case *ssa.ChangeType:
+					follow(x, depth+1)
+				case *ssa.Store:
+					if al, ok := x.Addr.(*ssa.Alloc); ok && x.Val == v && al.Referrers() != nil {
+						for _, r2 := range *al.Referrers() {
+							if ld, ok := r2.(*ssa.UnOp); ok && ld.Op == token.MUL {
+								follow(ld, depth+1)
+							}
+						}
+					}
+				}
+			}
+		}
+		an.Instrs(f, func(_ *ssa.BasicBlock, in ssa.Instruction) {
+			var base ssa.Value
+			var idx int
+			switch x := in.(type) {
+			case *ssa.FieldAddr:
+				base, idx = x.X, x.Field
+			case *ssa.Field:
+				base, idx = x.X, x.Field
+			default:
+				return
+			}
+			st, ok := an.Deref(base.Type()).Underlying().(*types.Struct)
+			if !ok || st.Field(idx).Name() != "MaxWallTime" || an.NamedOf(an.Deref(base.Type())) == nil || an.NamedOf(an.Deref(base.Type())).Obj().Name() != "SearchOptions" {
+				return
+			}
+			v := in.(ssa.Value)
+			if fa, ok := in.(*ssa.FieldAddr); ok && fa.Referrers() != nil {
+				for _, ref := range *fa.Referrers() {
+					if ld, ok := ref.(*ssa.UnOp); ok && ld.Op == token.MUL {
+						follow(ld, 0)
+					}
+				}
+				return
+			}
+			follow(v, 0)
+		})
+	}
+	sort.Slice(sites, func(i, j int) bool { return sites[i].pos < sites[j].pos })
+	key := "search+index/deadline-derived-from-MaxWallTime/single-site"
+	switch {
+	case len(sites) == 0:
+		r.Und("C21.R3", key, token.NoPos, "no call derives a deadline from SearchOptions.MaxWallTime in packages search/index: the rule does not see where the wall-time limit is applied")
+	case len(sites) == 1:
+		r.OK("C21.R3", key, sites[0].pos, "the only deadline derived from MaxWallTime is set in "+sites[0].fn)
+	default:
+		var names []string
+		for _, s := range sites {
+			names = append(names, s.fn+" ("+p.Pos(s.pos)+")")
+		}
+		r.Bad("C21.R3", key, sites[len(sites)-1].pos, "MaxWallTime is turned into a deadline in more than one place: "+strings.Join(names, ", ")+". A phase that runs under a deadline of its own can give up while the rest of the search continues on a fresh budget; shards answer an expired context with an empty result and no error, so e.g. a negated type:repo sub-query excludes fewer repositories and the search returns files that it does not return without the wall-time limit")
+	}
 }
